@@ -3,6 +3,7 @@ import Rare.Model.C09
 import Rare.Model.C09Utf8
 import Rare.Spec.C09Frag
 import Rare.Model.C09Err
+import Rare.Spec.C09WFB
 /-!
 Line-protocol ops of C09.
 
@@ -27,6 +28,10 @@ Line-protocol ops of C09.
                                                   rule of `stageSimpleVariable` is observed, not just its value)
   cerr  <opt> <template raw bytes>                 `StageCount()`, `errors.Is` for the three sentinels, `Unwrap()`, and the
                                                   full `Error()` text of the returned `*CompilerErrors` (errors.go)
+  wfck  <opt> <template raw bytes>                 the SPEC's answer to "does this template have a syntax error": the
+                                                  decision procedure `wfB` of the grammar `WellFormed` (proved equivalent,
+                                                  `wellformed_decidable`) – no compile on the model side; the real side
+                                                  answers with `errors.Is` for the three sentinels (`compile_ok_iff_wellformed`)
   streex <opt> <tokens> <elems> <keys>            the same without the claim: any tree over the standard names; the
                                                   theorem is checked when `fragOk` holds, otherwise only compile + evaluate
 -/
@@ -139,6 +144,13 @@ def handle (args : List String) : String :=
         | .error m => Rare.Drv.Expr.panicAns m
         | .ok (v, log) =>
           s!"ok errs={Rare.Drv.Expr.errsStr errs} val={Hex.enc v} log={if log.isEmpty then "." else ",".intercalate (log.map lookStr)}"
+    | none => "bad-args"
+  | ["wfck", _, t] =>
+    match Hex.dec t with
+    | some tb =>
+      let tc := decodeRunes tb
+      let wf := wfB splitArgs (fun n => (testRegistry n).isSome) (tc.length + 1) tc
+      s!"ok syn={if wf then 0 else 1}"
     | none => "bad-args"
   | ["cerr", o, t] =>
     match Hex.dec t with
